@@ -88,6 +88,10 @@ structure BState where
   ilists : List IList := []
   priv : Tables := {}
   err : Option String := none
+  /-- index of the first network of the document being built: `handle_document_start` makes a NEW `NeuroMLDocument`
+      but (today) leaves `self.network`, the tables and the objects they point to alone; the networks, populations ..
+      of earlier documents stay alive in the lists below `docBase` (reachable through stale table entries only) -/
+  docBase : Nat := 0
 deriving DecidableEq, Repr, Inhabited
 
 structure World where
@@ -336,11 +340,17 @@ def hSingleInput (cfg : Cfg) (me : Bool) (w : World) (list id : String) (cell : 
           let item : Item := if weightIsOne then ⟨"i", [id, target, segF, frF]⟩ else ⟨"iw", [id, target, segF, frF, weight]⟩
           modIList w rl (fun l => { l with inputs := l.inputs ++ [item] })
 
-/-- one handler call by builder `me` -/
+def HCall.isDocStart : HCall → Bool
+  | .docStart _ _ => true
+  | _ => false
+
+/-- one handler call by builder `me`.  After an error a builder ignores further calls (the parser driving it has
+    died) until the next `handle_document_start` (a new parse on the same builder). -/
 def step (cfg : Cfg) (me : Bool) (w : World) (c : HCall) : World :=
-  if (w.get me).err.isSome then w else
+  if (w.get me).err.isSome && !c.isDocStart then w else
   match c with
-  | .docStart id notes => w.upd me (fun s => { s with doc := some (id, keepNotes notes) })
+  | .docStart id notes =>
+    w.upd me (fun s => { s with doc := some (id, keepNotes notes), comps := [], docBase := s.nets.length, err := none })
   | .network id notes temp =>
     match (w.get me).doc with
     | none => fail w me "AttributeError"
@@ -367,6 +377,33 @@ def brun : List HCall → BState → BState
   | [], s => s
   | c :: cs, s => brun cs (bstep s c)
 
+/-- the proposed repair: `handle_document_start` also forgets `self.network` and the seven tables, i.e. the builder
+    starts every document from the state of a new builder (`reset = true`); `reset = false` is today's code -/
+def bstepR (reset : Bool) (s : BState) (c : HCall) : BState :=
+  if reset && c.isDocStart then bstep {} c else bstep s c
+
+def brunR (reset : Bool) : List HCall → BState → BState
+  | [], s => s
+  | c :: cs, s => brunR reset cs (bstepR reset s c)
+
+/-- what the document under construction shows: header, standalone components, and the networks created since the
+    last `handle_document_start` with their populations / projections / input lists (network indices relative to the
+    document) -/
+structure View where
+  doc : Option (String × Option String)
+  comps : List String
+  nets : List (Net × List Pop × List Proj × List IList)
+  err : Option String
+deriving DecidableEq, Repr, Inhabited
+
+def view (s : BState) : View :=
+  { doc := s.doc, comps := s.comps, err := s.err,
+    nets := ((List.range s.nets.length).zip s.nets).filterMap fun p =>
+      if p.1 < s.docBase then none else
+        some (p.2, (s.pops.filter (·.net == p.1)).map (fun x => { x with net := p.1 - s.docBase }),
+          (s.projs.filter (·.net == p.1)).map (fun x => { x with net := p.1 - s.docBase }),
+          (s.ilists.filter (·.net == p.1)).map (fun x => { x with net := p.1 - s.docBase })) }
+
 /-- the calls builder `who` issues in an interleaved schedule, in order -/
 def callsOf (who : Bool) : List (Bool × HCall) → List HCall
   | [] => []
@@ -385,5 +422,62 @@ def cfgOfTable (t : Table) (names : Array String) : Cfg :=
   ⟨sharedAttr t names "populations", sharedAttr t names "projections", sharedAttr t names "input_lists",
    sharedAttr t names "projection_syns", sharedAttr t names "projection_types", sharedAttr t names "projection_syns_pre",
    sharedAttr t names "weightDelays"⟩
+
+/-! ### what the handler translator extracts from `NetworkBuilder.py` (Gen/Handlers.lean) -/
+
+/-- an attribute reached through `self`: declared in a class body? with a mutable value? assigned by `__init__` on
+    every path? -/
+structure AttrInfo where
+  id : Nat
+  classLevel : Bool
+  mutableVal : Bool
+  initAssigned : Bool
+deriving DecidableEq, Repr, Inhabited
+
+/-- shared by all instances: a class-level mutable object that the constructor does not replace -/
+def AttrInfo.shared (a : AttrInfo) : Bool := a.classLevel && a.mutableVal && !a.initAssigned
+
+structure HandlerTouch where
+  handler : String
+  reads : List Nat
+  stores : List Nat
+  deep : List Nat
+deriving DecidableEq, Repr, Inhabited
+
+/-- no handler method touches an attribute that all builder instances share -/
+def handlersPrivate (attrs : List AttrInfo) (touch : List HandlerTouch) : Bool :=
+  touch.all fun h => (h.reads ++ h.stores ++ h.deep).all fun a =>
+    attrs.all fun i => !(i.id == a) || !i.shared
+
+def sharedId (attrs : List AttrInfo) (id : Nat) : Bool := attrs.any fun i => i.id == id && i.shared
+
+/-- the sharing configuration read off the extracted attribute table (`ids` = the seven tables in model order) -/
+def cfgOfAttrs (attrs : List AttrInfo) (ids : List Nat) : Cfg :=
+  match ids with
+  | [a, b, c, d, e, f, g] => ⟨sharedId attrs a, sharedId attrs b, sharedId attrs c, sharedId attrs d, sharedId attrs e,
+      sharedId attrs f, sharedId attrs g⟩
+  | _ => Cfg.allShared
+
+/-- every one of the seven tables exists as an attribute of the class -/
+def tablesExist (attrs : List AttrInfo) (ids : List Nat) : Bool :=
+  ids.length == 7 && ids.all fun t => attrs.any fun i => i.id == t
+
+/-- **the hand model's access pattern**: handler method -> tables (0 populations, 1 projections, 2 input_lists,
+    3 projection_syns, 4 projection_types, 5 projection_syns_pre, 6 weightDelays) whose content it looks up / it
+    stores an entry into / through which it mutates an object (population, projection, input list).  This is what
+    `hPopulation` .. `hSingleInput` above do; `Gen.Handlers.use` (extracted from the source) must equal it, for the variant
+    (`reset`) of `handle_document_start` that the translator finds in the source. -/
+def modelUse (reset : Bool) : List (String × List Nat × List Nat × List Nat) := [
+  -- `bstepR`: the repaired `handle_document_start` replaces all seven tables, today's touches none
+  ("handle_document_start", [], if reset then [0, 1, 2, 3, 4, 5, 6] else [], []),
+  ("handle_network", [], [], []),
+  ("handle_population", [], [0], []),
+  ("handle_location", [0], [], [0]),
+  ("handle_projection", [], [1, 3, 4, 5, 6], []),
+  ("finalise_projection", [4], [], []),
+  ("handle_connection", [0, 1, 3, 5, 6], [], [1]),
+  ("handle_input_list", [], [2], []),
+  ("handle_single_input", [0, 2], [], [2]),
+  ("finalise_input_source", [], [], [])]
 
 end NmlVerif.NetBuilder
